@@ -72,7 +72,7 @@ func main() {
 
 	names := make([]string, 0)
 	for n := range registry.Probes {
-		if (strings.HasPrefix(n, "core_") || strings.HasPrefix(n, "rnd_")) && (only == "" || only == n) {
+		if (strings.HasPrefix(n, "core_") || strings.HasPrefix(n, "rnd_") || strings.HasPrefix(n, "bound")) && (only == "" || only == n) {
 			names = append(names, n)
 		}
 	}
